@@ -114,7 +114,8 @@ class Patch(Relation):
         region = st.one_of(
             G.circle(sz, c), G.ellipse(sz, c, max_ratio=30),
             G.rectangle(sz, c, max_ratio=30),
-            G.polygon(sz, c, simple_only=True), G.regular_polygon(sz, c),
+            G.polygon(sz, c, simple_only=True), G.int_polygon(),
+            G.regular_polygon(sz, c),
             G.circle_annulus(sz, c),
             G.asym_annulus('EllipseAnnulusPixelRegion', sz, c, max_ratio=30),
             G.asym_annulus('RectangleAnnulusPixelRegion', sz, c, max_ratio=30))
